@@ -69,6 +69,23 @@ func (s *scriptedReader) Read(p []byte) (int, error) {
 	return n, err
 }
 
+// scribbleReader overwrites `target` with `with` around a Read of the wrapped reader.
+type scribbleReader struct {
+	inner  io.Reader
+	target []byte
+	with   []byte
+	before bool
+}
+
+func (s *scribbleReader) Read(p []byte) (int, error) {
+	if s.before {
+		copy(s.target, s.with)
+	}
+	n, err := s.inner.Read(p)
+	copy(s.target, s.with)
+	return n, err
+}
+
 func readsToJSON(l [][3]int) string {
 	var sb strings.Builder
 	sb.WriteByte('[')
@@ -216,6 +233,24 @@ func driveNonce(c *ctx) {
 			}
 		}
 		csrand.Reader = saved
+	}
+	// an ADVERSARIAL reader: its Read overwrites the caller's digest buffer (the reader is caller-supplied code and may hold a
+	// reference to it) before / after delivering the entropy.  Whichever of the two digests the library signs, the nonce belongs to
+	// THAT (key, digest, entropy) triple: ordinary signatures over either digest with the same entropy must not share r with another
+	// triple, and must repeat the same triple's signature exactly.
+	for i, d := range keys[:5] {
+		for variant := 0; variant < 3; variant++ {
+			A, B := randBytes(rng, 32), randBytes(rng, 32)
+			ent := entropies[(i+variant)%len(entropies)]
+			buf := append([]byte{}, A...)
+			inner := &scriptedReader{data: append(append([]byte{}, ent...), bytes.Repeat([]byte{0xEE}, 64)...), steps: chunkings[variant]}
+			rd := &scribbleReader{inner: inner, target: buf, with: B, before: variant == 1}
+			r, s, v, err := privFrom(d).SignRaw(rd, buf)
+			c.E("sig.Raw", "d", h32(d), "digest", hx(A), "digest_alt", hx(B), "rng", "reader", "reads", rawJSON(readsToJSON(inner.log)), "entropy", hx(ent),
+				"ok", err == nil, "r", scHexOr(r), "s", scHexOr(s), "v", int(v))
+			signWith(d, A, ent, whole)
+			signWith(d, B, ent, whole)
+		}
 	}
 	// the nonce has a SECRET input: key objects that share one public-key object but hold different private scalars (built through
 	// the verif accessor; not reachable through the public API) must not share r under constant entropy.  A derivation that takes
